@@ -62,6 +62,11 @@ package executors
 //@ func (pe *PeriodicalExecutor) hasTasks
 //@   property C11
 //@   ensures implies(tasks == nil, !result)
+// a batch that is not a collection (a container may hand over any value) is always executed - its value, zero or not, is the
+// container's business: the batch has already been taken out, declining it here would lose it
+//@   ghost at entry: k = reflect.Invalid
+//@   ghost at after Kind#0: k = ret
+//@   ensures_local implies(tasks != nil && k != reflect.Array && k != reflect.Chan && k != reflect.Map && k != reflect.Slice, result)
 //@   modifies nothing
 
 // every batch handed to executeTasks is executed once when non-empty; the wait group is released on every exit
